@@ -553,7 +553,7 @@ func sweeps(run *hx.Run) {
 	thorough := run.Thorough()
 	// the statement-coverage measurement of bin/check runs the generators a second time on an instrumented binary:
 	// the cases above 4000 vertices execute the same statements as their twins at 1025 … 3073 and are left out there
-	measuring := os.Getenv("GOCOVERDIR") != ""
+	measuring := os.Getenv("GOCOVERDIR") != "" && run.Budget <= 1 // (with an enlarged budget — changed code — nothing is left out)
 	do := func(kind string, c hx.Case) {
 		if measuring && (c.NoModel || sweepSize(c) > modelSizeLimit) {
 			return
